@@ -13,6 +13,7 @@ import (
 	"os"
 	"sort"
 	"strings"
+	"time"
 
 	"github.com/hyperjumptech/grule-rule-engine/ast"
 	"github.com/hyperjumptech/grule-rule-engine/builder"
@@ -204,6 +205,12 @@ func replayHistory(raw json.RawMessage, steps []LStep, salt int) (mm *mismatch) 
 			insts[st.Inst-1].RemoveRuleEntry(st.Name)
 		case "inst":
 			var kb *ast.KnowledgeBase
+			if (i+salt)%2 == 0 {
+				// asking for a version that does not exist is answered with an error and changes nothing (a stuttering step)
+				if none, e := lib.NewKnowledgeBaseInstance(st.Kb, "no-such-version"); e == nil || none != nil {
+					return &mismatch{Hist: raw, Step: i, Op: st.Op, Kind: "unknown-version", Want: "an error", Got: "an instance"}
+				}
+			}
 			kb, err = lib.NewKnowledgeBaseInstance(st.Kb, "1")
 			if err == nil {
 				insts = append(insts, kb)
@@ -308,12 +315,25 @@ func cmdLibReplay(args []string) {
 		for _, s := range h {
 			ops[s.Op]++
 		}
-		if mm := replayHistory(raw, h, *salt+n); mm != nil {
+		// (a history that does not come back - a lock left behind - is reported; the process then stops: its libraries are wedged)
+		done := make(chan *mismatch, 1)
+		go func() { done <- replayHistory(raw, h, *salt+n) }()
+		var mm *mismatch
+		hung := false
+		select {
+		case mm = <-done:
+		case <-time.After(20 * time.Second):
+			mm, hung = &mismatch{Hist: raw, Step: -1, Kind: "hang", Want: "every call returns", Got: "the history did not finish within 20 s"}, true
+		}
+		if mm != nil {
 			bad++
 			kinds[mm.Kind+"@"+mm.Op]++
 			b, _ := json.Marshal(mm)
 			w.Write(b)
 			w.WriteByte('\n')
+		}
+		if hung {
+			break
 		}
 	}
 	st, _ := json.Marshal(J{"histories": n, "steps": steps, "diverging": bad, "kinds": kinds, "ops": ops})
